@@ -49,7 +49,7 @@ type serverSpec struct {
 }
 
 func checkC09(p *ana.Prog, r *ana.Result) {
-	r.Explain("C09 (structural necessary conditions): in runIPServer and in the NTP arm of runSCIONServer every path from the datagram read to the NTP reply write passes ntp.DecodePacket==nil and ntp.ValidateRequest==nil, and either `len(payload) <= 48` or all six NTS tests (nts.DecodePacket, FirstCookie, cookie Decode, provider.Get ok, Decrypt, ProcessRequest); no path executes two reply writes for one read; the reply goes to the address returned by this read (over SCION: SrcIA/DstIA, address types, raw addresses and UDP ports exchanged and the path reversed before the write to the previous hop) and is the buffer ntp.EncodePacket filled from the packet handleRequest built. ValidateRequest is decided exactly on all 256 first bytes (truth table) against the stated set; the reply's first byte after SetVersion/SetMode is computed for all 256 prior values and is disjoint from the accepted request set (anti-reflection); ntp.DecodePacket rejects len<48 on every path. Per-datagram state: nts.DecodePacket appends to the Packet it is given, so from every place that may leave cookies or placeholders in that Packet every path to the next DecodePacket call re-creates the variable, stores an empty value (zero Packet, nil or zero-length slice) or tests that the field is empty - otherwise fields of an earlier (even rejected) datagram would decide whether this one is answered.")
+	r.Explain("C09 (structural necessary conditions): in runIPServer and in the NTP arm of runSCIONServer every path from the datagram read to the NTP reply write passes ntp.DecodePacket==nil and ntp.ValidateRequest==nil, and either `len(payload) <= 48` or all six NTS tests (nts.DecodePacket, FirstCookie, cookie Decode, provider.Get ok, Decrypt, ProcessRequest); no path executes two reply writes for one read; the reply goes to the address returned by this read (over SCION: SrcIA/DstIA, address types, raw addresses and UDP ports exchanged and the path reversed before the write to the previous hop) and is the buffer ntp.EncodePacket filled from the packet handleRequest built. ValidateRequest is decided exactly on all 256 first bytes (truth table) against the stated set; the reply's first byte after SetVersion/SetMode is computed for all 256 prior values and is disjoint from the accepted request set (anti-reflection); ntp.DecodePacket rejects len<48 on every path. Per-datagram state: nts.DecodePacket appends to the Packet it is given, so from every place that may leave cookies or placeholders in that Packet every path to the next DecodePacket call re-creates the variable, stores an empty value (zero Packet, nil or zero-length slice) or tests that the field is empty - otherwise fields of an earlier (even rejected) datagram would decide whether this one is answered. Drops (IP listener): every branch between the read and the reply one side of which can no longer reach the reply tests only results of the known calls (read, decode, validate, the six NTS steps, sealing, encode, write) - a datagram is not dropped for any other reason.")
 	r.Undecided("kernel delivery; NTS cryptographic validity (C10); values inside the reply other than LVM/stratum (C06)")
 	c09Server(p, r, "runIPServer", false)
 	c09Server(p, r, "runSCIONServer", true)
